@@ -77,6 +77,3 @@ Proof.
     destruct (run_src n p f vs) as [rs| | |]; try exact I. discriminate Ha.
 Qed.
 
-(* a crude static sufficient condition for [safe]: one instruction adds at most max(1, locals) items and
-   one frame, so short runs of code with few locals cannot reach the limits.  (For real runs [safe] itself
-   is evaluated: it is a boolean function.) *)
